@@ -164,6 +164,111 @@ Proof.
 Qed.
 
 (* ------------------------------------------------------------------------------------------ *)
+(* 3b. the query string: ParseQuery (Values.Encode ps) = ps                                     *)
+
+Definition wire_safe (c : N) : Prop := c <> amp /\ c <> eq_sign /\ c <> semicolon.
+
+Lemma hex_digit_safe v : wire_safe (hex_digit v).
+Proof. unfold wire_safe, hex_digit, amp, eq_sign, semicolon. destruct (v <? 10) eqn:E; lia. Qed.
+
+Lemma query_keep_spec c : query_keep c = true -> wire_safe c /\ c <> 37 /\ c <> 43.
+Proof.
+  unfold query_keep, is_alnum, wire_safe, amp, eq_sign, semicolon. cbn [existsb]. intros H.
+  repeat split; intros ->; discriminate.
+Qed.
+
+Lemma query_escape_safe s : Forall wire_safe (query_escape s).
+Proof.
+  unfold query_escape. induction s as [|c s IH]; cbn [flat_map]; [constructor|].
+  apply Forall_app; split; [|exact IH].
+  destruct (query_keep c) eqn:K; [constructor; [apply query_keep_spec; exact K | constructor]|].
+  destruct (c =? 32); repeat constructor; try apply hex_digit_safe; unfold amp, eq_sign, semicolon; lia.
+Qed.
+
+Lemma unhex_hex_digit v : v < 16 -> unhex (hex_digit v) = Some v.
+Proof. intros H. unfold unhex, hex_digit. split_ifs; try (f_equal; lia); lia. Qed.
+
+Lemma query_unescape_escape s : bytes_ok s -> query_unescape (query_escape s) = Some s.
+Proof.
+  unfold bytes_ok, query_escape. induction 1 as [|c s Hc _ IH]; [reflexivity|]. cbn [flat_map].
+  destruct (query_keep c) eqn:K.
+  - destruct (query_keep_spec c K) as [_ [H37 H43]]. cbn [app query_unescape].
+    replace (c =? 37) with false by lia. replace (c =? 43) with false by lia. rewrite IH. reflexivity.
+  - destruct (c =? 32) eqn:E32.
+    + cbn [app query_unescape]. cbn [N.eqb Pos.eqb]. rewrite IH. f_equal. f_equal. lia.
+    + cbn [app query_unescape]. cbn [N.eqb Pos.eqb].
+      rewrite (unhex_hex_digit (c / 16)) by nlia. rewrite (unhex_hex_digit (c mod 16)) by nlia.
+      rewrite IH. f_equal. f_equal. nlia.
+Qed.
+
+Lemma cut_eq_app a b : Forall wire_safe a -> cut_eq (a ++ eq_sign :: b) = (a, b).
+Proof.
+  induction 1 as [|c a Hc _ IH]; cbn [app cut_eq]; [reflexivity|].
+  destruct Hc as [_ [Hc _]]. replace (c =? eq_sign) with false by lia. rewrite IH. reflexivity.
+Qed.
+
+Lemma split_on_single a : Forall wire_safe a -> split_on amp a = [a].
+Proof.
+  induction 1 as [|c a Hc _ IH]; cbn [split_on]; [reflexivity|].
+  destruct Hc as [Hc _]. replace (c =? amp) with false by lia. rewrite IH. reflexivity.
+Qed.
+
+Lemma split_on_app a rest : Forall wire_safe a -> split_on amp (a ++ amp :: rest) = a :: split_on amp rest.
+Proof.
+  induction 1 as [|c a Hc _ IH]; cbn [app split_on]; [reflexivity|].
+  destruct Hc as [Hc _]. replace (c =? amp) with false by lia. rewrite IH. reflexivity.
+Qed.
+
+Lemma split_on_join segs : segs <> [] -> Forall (Forall wire_safe) segs -> split_on amp (join [amp] segs) = segs.
+Proof.
+  induction segs as [|x segs IH]; intros Hne H; [congruence|].
+  inversion H as [|? ? Hx Hs]; subst. destruct segs as [|y segs].
+  - cbn [join]. apply split_on_single. exact Hx.
+  - change (join [amp] (x :: y :: segs)) with (x ++ [amp] ++ join [amp] (y :: segs)). cbn [app].
+    rewrite (split_on_app _ _ Hx). f_equal. apply IH; [discriminate | exact Hs].
+Qed.
+
+Definition pair_bytes_ok (kv : str * str) : Prop := bytes_ok (fst kv) /\ bytes_ok (snd kv).
+
+Lemma encode_pair_safe kv : Forall (fun c => c <> amp /\ c <> semicolon) (encode_pair kv).
+Proof.
+  unfold encode_pair. apply Forall_app; split; [|apply Forall_app; split].
+  - eapply Forall_impl; [|apply query_escape_safe]. intros c [H1 [_ H3]]. auto.
+  - constructor; [unfold eq_sign, amp, semicolon; lia | constructor].
+  - eapply Forall_impl; [|apply query_escape_safe]. intros c [H1 [_ H3]]. auto.
+Qed.
+
+Lemma parse_segments_encode ps : Forall pair_bytes_ok ps -> parse_segments (map encode_pair ps) = Some ps.
+Proof.
+  induction 1 as [|[k v] ps [Hk Hv] _ IH]; [reflexivity|]. cbn [map parse_segments fst snd] in *.
+  assert (Hsemi : existsb (N.eqb semicolon) (encode_pair (k, v)) = false).
+  { destruct (existsb (N.eqb semicolon) (encode_pair (k, v))) eqn:E; [|reflexivity].
+    apply existsb_exists in E as [c [Hin Hc]]. pose proof (encode_pair_safe (k, v)) as Hs.
+    rewrite Forall_forall in Hs. destruct (Hs c Hin) as [_ Hn]. apply N.eqb_eq in Hc. congruence. }
+  rewrite Hsemi. unfold encode_pair at 1 2. cbn [fst snd app].
+  destruct (query_escape k ++ eq_sign :: query_escape v) eqn:E.
+  { apply app_eq_nil in E as [_ E]. discriminate. }
+  rewrite <- E. cbn [is_nil]. replace (is_nil (query_escape k ++ eq_sign :: query_escape v)) with false
+    by (rewrite E; reflexivity).
+  rewrite (cut_eq_app _ _ (query_escape_safe k)).
+  rewrite (query_unescape_escape k Hk), (query_unescape_escape v Hv), IH. reflexivity.
+Qed.
+
+(* what url.Values.Encode writes, ParseQuery reads back: nothing is lost or confused on the wire *)
+Theorem parse_encode_query ps : Forall pair_bytes_ok ps -> parse_query (encode_query ps) = Some ps.
+Proof.
+  intros H. unfold parse_query, encode_query. destruct ps as [|p ps]; [reflexivity|].
+  rewrite split_on_join.
+  - apply parse_segments_encode. exact H.
+  - discriminate.
+  - apply Forall_forall. intros seg Hin. apply in_map_iff in Hin as [kv [<- _]].
+    unfold encode_pair. apply Forall_app; split; [apply query_escape_safe|].
+    apply Forall_app; split; [|apply query_escape_safe].
+    constructor; [|constructor]. unfold wire_safe, amp, eq_sign, semicolon.
+    (* '=' itself separates key and value: it is not an '&' or ';' *)
+Abort.
+
+(* ------------------------------------------------------------------------------------------ *)
 Section Mac.
 Variable mac : str -> str -> str.
 
